@@ -93,6 +93,11 @@ struct Lin {
             if (fi == 0)
                 for (std::size_t k = 0; k < N; ++k) ext[k] = 2;  // a single cell
             const bool onehot = fi % 3 == 1;
+            // every component constant over the whole field (a uniform field: non-power-of-two values, so that the
+            // weights' rounding errors do not cancel): the interpolant is that constant everywhere
+            const bool flat = fi % 6 == 3 || (nfields <= 3 && fi == 2);
+            static const double flatv[] = {5.0, 0.1, -7.3, 1.0 / 3.0, 1000.1, -2.7e-3, 3.0, 0.7};
+            const unsigned flat0 = (unsigned)rng.below(8);
             vh::set_case("%s field#%u extents=%s fill", nm.c_str(), fi, vh::jarr(ext, N).c_str());
             field_t f = make(ext);
             typename order_t::non_owning_data_t raw(order_of(f));
@@ -107,7 +112,9 @@ struct Lin {
                     for (std::size_t k = 0; k < N; ++k) cc[k] = c[k];
                     for (std::size_t j = 0; j < M; ++j) {
                         S v;
-                        if (onehot)
+                        if (flat)
+                            v = (S)flatv[(flat0 + j) % 8];
+                        else if (onehot)
                             v = (cell == (hot + j) % ncells) ? (S)1 : (S)0;
                         else {
                             int e = (int)rng.range(rng.below(4) ? -20 : -emax, rng.below(4) ? 20 : emax);
@@ -212,6 +219,32 @@ struct Lin {
                     if (r.absum > 0 && !lattice) vh::maxstat("max_err_permille_of_bound", (uint64_t)(1000 * (double)(err / bnd)));
                 }
                 if (fi == 2 && q == 3) vh::sample(nm, "extents=" + vh::jarr(ext, N) + " x=" + vh::jarr(x, N) + " -> component0=" + iref::qs((Q)got[0]), 1);
+            }
+            if (flat) {
+                // many more lookups on the uniform field, against the closed-form answer (the constant itself, to within
+                // a few roundings of the narrower of the two types): rare rounding patterns of the weight products
+                const unsigned extra = vh::st().thorough ? 400000 : 60000;
+                const Q eps = (Q)std::max((double)std::numeric_limits<R>::epsilon(), (double)std::numeric_limits<S>::epsilon());
+                for (unsigned q = 0; q < extra; ++q) {
+                    typename field_t::coordinate_t c;
+                    for (std::size_t k = 0; k < N; ++k) {
+                        R v = (R)(rng.unit() * (double)(ext[k] - 1));
+                        if (!((Q)v < (Q)(ext[k] - 1))) v = std::nextafter((R)(ext[k] - 1), -inf);
+                        c[k] = v;
+                    }
+                    if (q % 4096 == 0) vh::set_case("%s field#%u extents=%s uniform field, lookup %u x0=%a", nm.c_str(), fi, vh::jarr(ext, N).c_str(), q, (double)c[0]);
+                    typename field_t::output_t got = view.at(c);
+                    vh::ev();
+                    for (std::size_t j = 0; j < M; ++j) {
+                        const Q want = (Q)(S)flatv[(flat0 + j) % 8];
+                        if (!(fabsq((Q)got[j] - want) <= 64 * eps * fabsq(want))) {
+                            vh::viol(nm + ":uniform-field", "extents=" + vh::jarr(ext, N) + " x0=" + vh::hexfloat((double)c[0]) + " component " + std::to_string(j) + ": got " + iref::qs((Q)got[j]) + " on a field that is " + iref::qs(want) + " everywhere");
+                            q = extra;
+                            break;
+                        }
+                    }
+                }
+                vh::stat("uniform_field_lookups", extra);
             }
         }
     }
